@@ -76,6 +76,12 @@ protected:
   /// Version 2: add a range of links
   void RegisterLinkIndexRange(LinkIndexRange );
 
+  /// Whether entry \a i of this link is the most recently registered
+  /// entry in the presolver's chain. Only then it may be extended in place:
+  /// otherwise links registered later (which may feed the new source items)
+  /// would run after the extended part.
+  bool IsLastRegisteredEntry(int i) const;
+
 
 private:
   ValuePresolver& value_presolver_;
@@ -136,6 +142,7 @@ public:
   /// if exists
   void AddEntry(LinkEntry be) {
     if (entries_.empty() ||
+        !IsLastRegisteredEntry(entries_.size()-1) ||
         !entries_.back().first.ExtendableBy(be.first) ||
         !entries_.back().second.ExtendableBy(be.second)) {
       entries_.push_back(be);             // Add new entry
@@ -220,6 +227,7 @@ public:
   /// if exists
   void AddEntry(LinkEntry be) {
     if (entries_.empty() ||
+        !IsLastRegisteredEntry(entries_.size()-1) ||
         !(
           (entries_.back().first==be.first   // same sources
            && entries_.back().second.TryExtendBy(be.second))
